@@ -20,7 +20,10 @@ def parseRound (s : String) : Option (Round × Option Nat) :=
     let hd := (hd.splitOn "~").headD hd
     let head ← if hd = "E" || hd = "F" then some none else (hd.toInt?).map some
     let pan ← if fl.startsWith "p" then ((fl.drop 1).toString.toNat?).map some else some none
-    let fail ← if fl = "n" then some none else if pan.isSome then some pan else (fl.toNat?).map some
+    -- `<idx>[a|b][kind]`: which of the handler's node reads fails and with which KIND of error; for the model a failed
+    -- read is a failed handler, whatever the kind
+    let digits := String.ofList (fl.toList.takeWhile Char.isDigit)
+    let fail ← if fl = "n" then some none else if pan.isSome then some pan else (digits.toNat?).map some
     let ok ← if st = "s" then some true else if st = "x" then some false else none
     let crash ← match rest with
       | [] => some (pan.map (· + 1))
@@ -117,7 +120,7 @@ def handle (op : String) (args : List String) (impl : String) : Option Verdict :
     let scanned := ss.any fun st => (st.1.splitOn "/S").length > 1
     return ⟨m, ok, s!"seq:{kindStr kind}:n={min ss.length 4}:accepted={accepted}:scanned={scanned}"⟩
   | "scan", [kind, conf, k, nh, start, rounds] => some <| Id.run do
-    let some kind := parseKind kind | return bad
+    let some kind := parseKind (String.ofList (kind.toList.filter (· != '+'))) | return bad
     let some conf := conf.toInt? | return bad
     let some k := k.toInt? | return bad
     let some nh := nh.toNat? | return bad
